@@ -83,6 +83,8 @@ func cacheGenHistory(r *Rng, g *EvGen, steps int, findsPerStep int) {
 		var e *mocrelay.Event
 		if len(script) == 0 && r.P(4) {
 			script = g.deletionChain()
+		} else if len(script) == 0 && r.P(2) {
+			script = g.selfDeletion()
 		}
 		switch {
 		case len(script) > 0:
